@@ -1,7 +1,7 @@
 (* Proofs about Model/SvdQn.v : block partition, soundness of the blocked SVD / QR / eigh given
    valid per-block witnesses, label propagation, economic-mode sort. *)
 From Coq Require Import List ZArith Arith Bool Lia Ring Permutation.
-From RV Require Import Base.CRing Base.BigSum Model.SvdQn.
+From RV Require Import Base.CRing Base.BigSum Model.SvdQn Gen.SvdQnShape.
 Import ListNotations.
 
 (* ================================================================== labels *)
@@ -1187,3 +1187,146 @@ Proof.
   split; [eapply eigh_orth; eassumption|].
   intros i k. apply eigh_label.
 Qed.
+
+(* ================================================================== eigh_qn: the returned values  sqrt(max(lambda, 0)) *)
+Section EighPost.
+  Variable R : CRing.
+  Add Ring RRpost : (rth R).
+  Notation "0" := (r0 R).
+  Infix "*" := (rmul R).
+
+  Variable neg : R -> bool.                 (* x < 0 *)
+  Variable sqrtw : R -> R.                  (* np.sqrt *)
+  Hypothesis neg_0 : neg 0 = false.
+  Hypothesis sqrt_ok : forall x, neg x = false -> sqrtw x * sqrtw x = x.
+
+  Definition clip (x : R) : R := if neg x then 0 else x.
+
+  Lemma eigh_post_sq x : eigh_post R ref_shape neg sqrtw x * eigh_post R ref_shape neg sqrtw x = clip x.
+  Proof.
+    unfold eigh_post, clip. cbn [ref_shape sh_eigh_clip_negative sh_eigh_sqrt].
+    destruct (neg x) eqn:E; apply sqrt_ok; assumption.
+  Qed.
+
+  (* what is guaranteed about (U, s): s_k^2 is the eigenvalue clipped at 0; U diag(s^2) U^dagger is the masked density
+     matrix with the negative eigenvalues of its blocks removed, and the masked density matrix itself when no block
+     eigenvalue is negative (the clipping only absorbs round-off of a positive semi-definite input) *)
+  Theorem eigh_qn_values_sound qn comp qntot order (A : mat R) (W : label -> bfac R) :
+    order_ok order qn -> eigh_witness_ok R qn comp qntot order A W ->
+    let o := eigh_qn R qn comp qntot order W in
+    let s := eS R ref_shape neg sqrtw o in
+    let m := length qn in
+    (forall k, s k * s k = clip (eL o k)) /\
+    (forall i j, sumn (eK o) (fun k => eU o i k * (s k * s k) * rcj R (eU o j k))
+                 = sumn (eK o) (fun k => eU o i k * clip (eL o k) * rcj R (eU o j k))) /\
+    ((forall k, k < eK o -> neg (eL o k) = false) ->
+     forall i j, i < m -> j < m ->
+       sumn (eK o) (fun k => eU o i k * (s k * s k) * rcj R (eU o j k))
+       = if eigh_present comp qntot (nth i qn []) && label_eqb (nth j qn []) (nth i qn []) then A i j else 0).
+  Proof.
+    intros Hord HW. cbn zeta.
+    assert (H1 : forall k, eS R ref_shape neg sqrtw (eigh_qn R qn comp qntot order W) k
+                           * eS R ref_shape neg sqrtw (eigh_qn R qn comp qntot order W) k
+                           = clip (eL (eigh_qn R qn comp qntot order W) k)).
+    { intros k. unfold eS. apply eigh_post_sq. }
+    split; [exact H1|]. split.
+    - intros i j. apply sumn_ext. intros k _. rewrite H1. reflexivity.
+    - intros Hpos i j Hi Hj.
+      rewrite <- (eigh_product R qn comp qntot order A W Hord HW i j Hi Hj).
+      apply sumn_ext. intros k Hk. rewrite H1. unfold clip. rewrite (Hpos k Hk). reflexivity.
+  Qed.
+End EighPost.
+
+(* ================================================================== the model instantiated with the source's shape
+   Gen.SvdQnShape.src_shape is regenerated from renormalizer/mps/svd_qn.py on every run.  Everything above is proved
+   for ref_shape; shape_ok transports it to the generated constants.  If an edit of the source changes one of the
+   extracted facts (e.g. eigh_qn no longer skipping sectors without partner), shape_ok stops compiling and with it
+   every theorem below. *)
+Lemma shape_ok : src_shape = ref_shape.
+Proof. reflexivity. Qed.
+
+Definition nblocks_s (sh : shape) (qnl qnr : list label) (qntot : label) (order : list label) (i j : nat) : nat :=
+  length (filter (fun nl => memn i (lset qnl nl) && memn j (rset qnr (svd_rkey qntot) nl))
+                 (bkeys (svd_present_s sh qnr qntot) order)).
+
+Theorem block_partition_src :
+  forall qnl qnr qntot order,
+  wf_labels qntot qnl -> wf_labels qntot qnr -> order_ok order qnl ->
+  forall i j, i < length qnl -> j < length qnr ->
+  nblocks_s src_shape qnl qnr qntot order i j = if allowed qnl qnr qntot i j then 1 else 0.
+Proof. rewrite shape_ok. exact block_partition_count. Qed.
+
+Theorem svd_qn_full_sound_src (R : CRing) qnl qnr qntot order (A : mat R) (W : label -> bfac R) p :
+  wf_labels qntot qnl -> wf_labels qntot qnr -> order_ok order qnl ->
+  svd_witness_ok_s R src_shape true qnl qnr qntot order A W ->
+  let o := svd_qn_s R src_shape true qnl qnr qntot order W p in
+  let m := length qnl in let n := length qnr in
+  (forall i j, i < m -> j < n ->
+     sumn (oKmain o) (fun k => rmul R (rmul R (oU o i k) (oSu o k)) (oV o j k)) = masked R qnl qnr qntot A i j) /\
+  orthonormal_cols R m (oKu o) (oU o) /\ orthonormal_cols R n (oKv o) (oV o) /\
+  (forall k, k < oKmain o -> ladd (nth k (oQl o) []) (nth k (oQr o) []) = qntot) /\
+  (forall i k, k < oKu o -> nth i qnl [] <> nth k (oQl o) [] -> oU o i k = r0 R) /\
+  (forall j k, k < oKv o -> nth j qnr [] <> nth k (oQr o) [] -> oV o j k = r0 R) /\
+  length (oQl o) = oKu o /\ length (oQr o) = oKv o /\ oKmain o <= oKu o /\ oKmain o <= oKv o /\
+  (forall k, oKmain o <= k -> oSu o k = r0 R /\ oSv o k = r0 R).
+Proof. rewrite shape_ok. exact (svd_qn_full_sound R qnl qnr qntot order A W p). Qed.
+
+Theorem svd_qn_econ_sound_src (R : CRing) qnl qnr qntot order (A : mat R) (W : label -> bfac R) p :
+  wf_labels qntot qnl -> wf_labels qntot qnr -> order_ok order qnl ->
+  svd_witness_ok_s R src_shape false qnl qnr qntot order A W ->
+  perm_okb p (oKmain (svd_qn_pre_s R src_shape qnl qnr qntot order W)) = true ->
+  let o := svd_qn_s R src_shape false qnl qnr qntot order W p in
+  let m := length qnl in let n := length qnr in
+  oKu o = oKmain o /\ oKv o = oKmain o /\ length (oQl o) = oKu o /\ length (oQr o) = oKv o /\
+  (forall i j, i < m -> j < n ->
+     sumn (oKmain o) (fun k => rmul R (rmul R (oU o i k) (oSu o k)) (oV o j k)) = masked R qnl qnr qntot A i j) /\
+  orthonormal_cols R m (oKu o) (oU o) /\ orthonormal_cols R n (oKv o) (oV o) /\
+  (forall k, k < oKmain o -> ladd (nth k (oQl o) []) (nth k (oQr o) []) = qntot) /\
+  (forall i k, k < oKu o -> nth i qnl [] <> nth k (oQl o) [] -> oU o i k = r0 R) /\
+  (forall j k, k < oKv o -> nth j qnr [] <> nth k (oQr o) [] -> oV o j k = r0 R) /\
+  (forall k, oSu o k = oSv o k) /\
+  (forall (le : R -> R -> Prop), (forall x y z, le x y -> le y z -> le x z) ->
+     desc_sorted R le (oKmain o) (oSu o) -> forall k k', k < k' -> k' < oKmain o -> le (oSu o k') (oSu o k)).
+Proof. rewrite shape_ok. exact (svd_qn_econ_sound R qnl qnr qntot order A W p). Qed.
+
+Theorem qr_qn_sound_src (R : CRing) qnl qnr qntot order (A : mat R) (W : label -> bfac R) sy :
+  wf_labels qntot qnl -> wf_labels qntot qnr -> order_ok order qnl ->
+  qr_witness_ok_s R src_shape sy qnl qnr qntot order A W ->
+  let o := svd_qn_pre_s R src_shape qnl qnr qntot order W in
+  let m := length qnl in let n := length qnr in
+  oKv o = oKu o /\ length (oQl o) = oKu o /\ length (oQr o) = oKv o /\
+  (forall i j, i < m -> j < n -> sumn (oKu o) (fun k => rmul R (oU o i k) (oV o j k)) = masked R qnl qnr qntot A i j) /\
+  (sy = SysL -> orthonormal_cols R m (oKu o) (oU o)) /\
+  (sy = SysR -> orthonormal_cols R n (oKv o) (oV o)) /\
+  (forall k, k < oKu o -> ladd (nth k (oQl o) []) (nth k (oQr o) []) = qntot) /\
+  (forall i k, k < oKu o -> nth i qnl [] <> nth k (oQl o) [] -> oU o i k = r0 R) /\
+  (forall j k, k < oKv o -> nth j qnr [] <> nth k (oQr o) [] -> oV o j k = r0 R).
+Proof. rewrite shape_ok. exact (qr_qn_sound R qnl qnr qntot order A W sy). Qed.
+
+Theorem eigh_qn_sound_src (R : CRing) qn comp qntot order (A : mat R) (W : label -> bfac R) :
+  order_ok order qn -> eigh_witness_ok_s R src_shape qn comp qntot order A W ->
+  let o := eigh_qn_s R src_shape qn comp qntot order W in
+  let m := length qn in
+  length (eQ o) = eK o /\
+  (forall i j, i < m -> j < m ->
+     sumn (eK o) (fun k => rmul R (rmul R (eU o i k) (eL o k)) (rcj R (eU o j k)))
+     = if eigh_present_s src_shape comp qntot (nth i qn []) && label_eqb (nth j qn []) (nth i qn []) then A i j else r0 R) /\
+  orthonormal_cols R m (eK o) (eU o) /\
+  (forall i k, k < eK o -> nth i qn [] <> nth k (eQ o) [] -> eU o i k = r0 R).
+Proof. rewrite shape_ok. exact (eigh_qn_sound R qn comp qntot order A W). Qed.
+
+Theorem eigh_qn_values_sound_src (R : CRing) (neg : R -> bool) (sqrtw : R -> R) :
+  neg (r0 R) = false -> (forall x, neg x = false -> rmul R (sqrtw x) (sqrtw x) = x) ->
+  forall qn comp qntot order (A : mat R) (W : label -> bfac R),
+  order_ok order qn -> eigh_witness_ok_s R src_shape qn comp qntot order A W ->
+  let o := eigh_qn_s R src_shape qn comp qntot order W in
+  let s := eS R src_shape neg sqrtw o in
+  let m := length qn in
+  (forall k, rmul R (s k) (s k) = clip R neg (eL o k)) /\
+  (forall i j, sumn (eK o) (fun k => rmul R (rmul R (eU o i k) (rmul R (s k) (s k))) (rcj R (eU o j k)))
+               = sumn (eK o) (fun k => rmul R (rmul R (eU o i k) (clip R neg (eL o k))) (rcj R (eU o j k)))) /\
+  ((forall k, k < eK o -> neg (eL o k) = false) ->
+   forall i j, i < m -> j < m ->
+     sumn (eK o) (fun k => rmul R (rmul R (eU o i k) (rmul R (s k) (s k))) (rcj R (eU o j k)))
+     = if eigh_present_s src_shape comp qntot (nth i qn []) && label_eqb (nth j qn []) (nth i qn []) then A i j else r0 R).
+Proof. rewrite shape_ok. intros H0 Hs. exact (eigh_qn_values_sound R neg sqrtw H0 Hs). Qed.
